@@ -129,7 +129,7 @@ class ADividedByB(SameArrayShapeMixin, Command):
     output = params.DataParameter()
 
     def execute(self, **kwargs):
-        a = kwargs["A"].result
+        a = make_masked(kwargs["A"].result)
         b = kwargs["B"].result
         self.validate_array_shapes([a, b], lineno=self.lineno)
 
@@ -204,7 +204,7 @@ class WeightedMean(SameArrayShapeMixin, Command):
 
     def execute(self, **kwargs):
         weights = kwargs["Weights"]
-        arrays = [c.result for c in kwargs["InFieldNames"]]
+        arrays = [make_masked(c.result) for c in kwargs["InFieldNames"]]
 
         if len(weights) != len(arrays):
             raise MismatchedWeights(len(weights), len(arrays))
